@@ -22,7 +22,7 @@ Proof. exact avc_seq_header_roundtrip. Qed.
 Print Assumptions c19_seqheader_avc.
 
 (* the header is built exactly when ParseSps accepts the SPS (profile and level
-   are copied from it); ParseSps may also panic, see c19_sps_end_of_buffer_panic *)
+   are copied from it); ParseSps could also panic before the F-13 repair, see c19_sps_end_of_buffer_panic_pinned *)
 Theorem c19_seqheader_avc_built : forall sps pps,
   (exists h, avc_build_seq_header sps pps = Ok h) <-> (exists ctx, parse_sps_avc sps = Ok ctx).
 Proof. exact avc_build_ok_iff. Qed.
@@ -56,15 +56,18 @@ Proof. exact read_ue_written. Qed.
 Print Assumptions c19_read_ue_write_ue.
 
 (* ... and panics (index out of range in naza) when a value-0 code word is the
-   very last bit of the buffer: DESIGN F-13, reachable through ParseSps and
-   BuildSeqHeaderFromSpsPps; every theorem below is about inputs where the
-   code word is followed by at least the RBSP stop bit *)
-Theorem c19_sps_end_of_buffer_panic :
+   very last bit of the buffer: DESIGN F-13.  On the pinned tree that was reachable
+   through ParseSps and BuildSeqHeaderFromSpsPps; since the lal-side repair (C05)
+   ParseSps hands the reader the RBSP copy with one zero byte appended, so the code
+   word is never at the end of the buffer: the same SPS now parses (to an error or a
+   value), see CodecPadProofs.parse_sps_avc_total / hevc_parse_sps_total *)
+Theorem c19_sps_end_of_buffer_panic_pinned :
   read_ue (mk_bitrd (write_ue 0) false) = Panic site_nazabits_zero_read
-  /\ parse_sps_avc [103; 66; 0; 30; 255] = Panic site_nazabits_zero_read
-  /\ avc_build_seq_header [103; 66; 0; 30; 255] [104; 206; 60; 128] = Panic site_nazabits_zero_read.
-Proof. repeat split; vm_compute; reflexivity. Qed.
-Print Assumptions c19_sps_end_of_buffer_panic.
+  /\ parse_sps_avc_pinned [103; 66; 0; 30; 255] = Panic site_nazabits_zero_read
+  /\ (forall s, parse_sps_avc [103; 66; 0; 30; 255] <> Panic s)
+  /\ (forall s, avc_build_seq_header [103; 66; 0; 30; 255] [104; 206; 60; 128] <> Panic s).
+Proof. repeat split; try (vm_compute; reflexivity); intro s; vm_compute; discriminate. Qed.
+Print Assumptions c19_sps_end_of_buffer_panic_pinned.
 
 (* removing 00 00 03 -> 00 00 (what ParseSps now does first) undoes the
    emulation prevention of H.264 7.4.1 on every byte string *)
